@@ -8,4 +8,5 @@ import PyXABModel.Model.SequOOL
 import PyXABModel.Model.Meta
 import PyXABModel.Model.Zooming
 import PyXABModel.Model.VROOM
+import PyXABModel.Generated.ObjectivesFloat
 import PyXABModel.Drv.Main
